@@ -93,9 +93,19 @@ pub fn gen(rng: &mut Rng, tier: &str) -> String {
         let pad2 = rng.below(10);
         let r1 = rng.chance(1, 3);
         let r2 = rng.chance(1, 3);
-        let core: Vec<u8> = (0..n).map(|_| rng.below(4) as u8).collect();
+        // dense differences now and then: long stretches in which every base differs (complement, constant shift, a sequence against
+        // a homopolymer), at lengths past every internal batch of the block loop
+        let dense = rng.chance(1, 5);
+        let n = if dense { *rng.pick(&[2048usize, 2049, 2080, 2100, 3000, 4096, 4100]) } else { n };
+        let core: Vec<u8> = if dense && rng.chance(1, 3) { vec![rng.below(4) as u8; n] } else { (0..n).map(|_| rng.below(4) as u8).collect() };
         let mut other = core.clone();
-        if n > 0 {
+        if dense {
+            let sh = rng.range(1, 3) as u8;
+            let from = if rng.chance(1, 2) { 0 } else { rng.below(n / 2) };
+            let to = if rng.chance(1, 2) { n } else { from + rng.below(n - from + 1) };
+            for p in from..to { other[p] = (core[p] + sh) % 4; }
+        }
+        if n > 0 && !dense {
             let crit = [0usize, 31, 32, 1023, 1024, n - 1, n / 2];
             let nd = rng.below(5);
             for _ in 0..nd {
